@@ -156,3 +156,37 @@ def checked_reach(cg, prog, floor=REACH_FLOOR):
         raise AnalysisBroken('only %d functions are reachable from the interposers (floor %d): the call graph is '
                              'incomplete' % (len(reach), floor))
     return reach
+
+
+_never = {}
+
+
+def never_returns(prog, f):
+    """every path of f ends in a call that does not return (exit, abort, another such function)"""
+    if f.key in _never:
+        return _never[f.key]
+    _never[f.key] = False
+    if f.cfg_error:
+        return False
+    if f.d.get('noreturn'):
+        _never[f.key] = True
+        return True
+
+    def stop(e):
+        return is_noreturn_call(prog, f, e)
+    _, ex = C.reach(f, (f.entry, 0), stop)
+    # reach() reports exit when a path arrives there without being stopped
+    _never[f.key] = not ex
+    return _never[f.key]
+
+
+def is_noreturn_call(prog, func, e):
+    if e.k != 'CallExpr':
+        return False
+    if e.get('calleeNoReturn'):
+        return True
+    name = e.get('callee')
+    if name in ('exit', '_exit', 'abort', '_Exit', 'quick_exit'):
+        return True
+    t = prog.func(name, func.tu) if name else None
+    return t is not None and t is not func and never_returns(prog, t)
